@@ -46,7 +46,7 @@ ASSUMPTIONS = [
     "generated commands are deterministic functions of declared inputs and dependency outputs (the property's premise)",
 ]
 
-FAMILIES_QUICK = [("edits", 4), ("alias", 3), ("shift", 3), ("tamper", 4), ("dirs", 6), ("swap", 5), ("shared", 5), ("wipe", 3), ("links", 5), ("revert", 6), ("taint", 2), ("disabled", 2), ("nocache", 2)]
+FAMILIES_QUICK = [("edits", 3), ("alias", 3), ("shift", 2), ("tamper", 3), ("dirs", 4), ("swap", 4), ("shared", 4), ("wipe", 2), ("links", 4), ("revert", 4), ("taint", 2), ("disabled", 2), ("nocache", 2)]
 FAMILIES_THOROUGH = [(f, n * 18) for f, n in FAMILIES_QUICK]
 
 
